@@ -188,7 +188,7 @@ func (env *e2eEnv) run(n int, a e2eAttempt, baseline int) (res e2eResult) {
 	t0 := time.Now()
 	panicked := false
 	streamDone := make(chan struct{})
-	res.returned = within(5*time.Second, func() {
+	res.returned = within(10*time.Second, func() {
 		defer close(streamDone)
 		defer func() {
 			if r := recover(); r != nil {
@@ -225,14 +225,14 @@ func (env *e2eEnv) run(n int, a e2eAttempt, baseline int) (res e2eResult) {
 		cancel()
 	}
 	var eres error
-	if within(1500*time.Millisecond, func() { eres = env.s.Error() }) {
+	if within(4*time.Second, func() { eres = env.s.Error() }) {
 		res.errorRes = classifyErr(eres)
 	} else {
 		res.errorRes = "blocked"
 	}
 	res.errorResAfterCancel = res.errorRes
 	// nothing left behind
-	deadline := time.Now().Add(1500 * time.Millisecond)
+	deadline := time.Now().Add(4 * time.Second)
 	for libraryGoroutines() > baseline && time.Now().Before(deadline) {
 		time.Sleep(20 * time.Millisecond)
 	}
@@ -240,7 +240,7 @@ func (env *e2eEnv) run(n int, a e2eAttempt, baseline int) (res e2eResult) {
 	if mc := env.m.conn(n); mc != nil {
 		select {
 		case <-mc.done:
-		case <-time.After(1500 * time.Millisecond):
+		case <-time.After(4 * time.Second):
 		}
 		env.m.mu.Lock()
 		res.closedSeen = mc.clientClosed
